@@ -73,6 +73,7 @@ type Engine struct {
 	runs      int
 	runCount  map[string]int
 	obsActive bool
+	retRecs   map[*ssa.Return]map[string]bool // abstract result tuples seen at each return (final round)
 	lastArgs  []AV
 	pinned    []AV // values whose facts must survive garbage collection (standalone runs)
 }
@@ -148,7 +149,7 @@ var traceShapes = os.Getenv("SPDXVERIF_TRACE_SHAPES") != ""
 func NewEngine(p *Prog) *Engine {
 	e := &Engine{p: p, eff: p.Effects(), symTab: map[string]SymID{}, objTab: map[string]ObjID{}, shapeTab: map[string][]*Shape{}, shapeIdx: map[string]int{},
 		rec: map[*ssa.Function]bool{}, entry: map[*ssa.Function][]CF{}, summ: map[*ssa.Function][]*OutcomeCF{},
-		notes: map[string]bool{}, runCount: map[string]int{}, maxDisj: 96, initArr: map[*ssa.Alloc]bool{}, initMake: map[*ssa.MakeSlice]bool{}}
+		notes: map[string]bool{}, runCount: map[string]int{}, retRecs: map[*ssa.Return]map[string]bool{}, maxDisj: 96, initArr: map[*ssa.Alloc]bool{}, initMake: map[*ssa.MakeSlice]bool{}}
 	e.symName = append(e.symName, "")
 	e.objName = append(e.objName, "")
 	e.findRecursive()
@@ -1341,6 +1342,29 @@ func (eng *Engine) runFunction(fn *ssa.Function, env *Env, args []AV) []Outcome 
 					var rets []AV
 					for _, r := range t.Results {
 						rets = append(rets, eng.val(e, r))
+					}
+					if eng.final {
+						var parts []string
+						for _, a := range rets {
+							switch a.K {
+							case KBool:
+								parts = append(parts, "bool:"+a.B.String())
+							case KPtr, KIface, KSlice, KMap, KFunc:
+								parts = append(parts, e.nilnessOf(a).String())
+							case KNum:
+								if s, ok := a.single(); ok {
+									parts = append(parts, "const:"+s)
+								} else {
+									parts = append(parts, "value")
+								}
+							default:
+								parts = append(parts, "value")
+							}
+						}
+						if eng.retRecs[t] == nil {
+							eng.retRecs[t] = map[string]bool{}
+						}
+						eng.retRecs[t][strings.Join(parts, " | ")] = true
 					}
 					outs = append(outs, Outcome{Rets: rets, Env: e})
 				}
